@@ -19,3 +19,9 @@ func (s *StateDB) VerifGlobalBytes() []byte {
 	_, v := s.tree.Get(globalKey)
 	return v
 }
+
+// VerifTreeGet looks a raw tree key up through the tree's own search path (inner node keys).
+func (s *StateDB) VerifTreeGet(key []byte) []byte {
+	_, v := s.tree.Get(key)
+	return v
+}
